@@ -121,10 +121,14 @@ impl TaikoGradualDifficulty {
     }
 
     /// Process all hit objects up to and including the next hit.
+    ///
+    /// After the last hit, drum rolls and swells at the end of the map are
+    /// processed too so that the final attributes match the regular
+    /// calculation.
     fn process_next_hit(&mut self) -> Option<()> {
-        loop {
-            let is_hit = *self.objects_is_hit.get(self.object_idx)?;
+        let mut found_hit = false;
 
+        while let Some(&is_hit) = self.objects_is_hit.get(self.object_idx) {
             // The first difficulty object belongs to the third hit object
             // since each difficulty object requires the current, the last,
             // and the second to last object. Hence, the first two hit
@@ -147,10 +151,15 @@ impl TaikoGradualDifficulty {
             if is_hit {
                 self.attrs.max_combo += 1;
                 self.idx += 1;
+                found_hit = true;
 
-                return Some(());
+                if self.idx < self.total_hits {
+                    break;
+                }
             }
         }
+
+        found_hit.then_some(())
     }
 }
 
